@@ -42,6 +42,8 @@ impl WalHandle {
                 "Appending entry to WAL"
             );
             let _ = sender.send(WalMessage::Entry(entry)).await;
+            #[cfg(feature = "verif-hooks")]
+            crate::verif_hooks::point("wal.enqueued", self.shard_id as u64);
         } else {
             error!(
                 target: "wal_handle::append",
@@ -106,6 +108,8 @@ impl WalHandle {
                                 "WAL append failed"
                             );
                         }
+                        #[cfg(feature = "verif-hooks")]
+                        crate::verif_hooks::point("wal.written", shard_id as u64);
 
                         debug!(
                             target: "wal_handle::spawn_wal_thread",
